@@ -25,6 +25,8 @@ type Val struct {
 	Fn    *FnVal // translation-time function value
 	Iter  *IterState
 	GT    types.Type // static Go type when known
+	Table *TableInfo // load of a frozen rule table
+	Cands []Cand     // candidate callees when the value came out of a rule table
 }
 
 type FnVal struct {
@@ -94,7 +96,8 @@ type Loop struct {
 	BackPred []*ssa.BasicBlock
 	Mod      map[string]bool // heap names modified in loop ("*" = all)
 	ModFresh map[string]bool
-	ModRows  map[string][]string
+	ModRows  map[string][]ssa.Value // heaps written only at rows of these roots (defined outside the loop)
+	ModWhole map[string]bool
 	Spec     *LoopSpec
 	// pseudo-phis
 	SeenIn, SeenOut string // map-range ghost
@@ -105,44 +108,45 @@ type Loop struct {
 
 // FnCtx is the translation context of one function.
 type FnCtx struct {
-	E      *Engine
-	M      *Model
-	F      *ssa.Function
-	Name   string
-	Spec   *FuncSpec
-	vals   map[ssa.Value]Val
-	decls  []string
-	declS  map[string]bool
-	facts  []Fact
-	obls   []*Obligation
-	seq    int
-	curBlk int
-	reach  map[int]string
-	edges  map[[2]int]string
-	outSt  map[int]map[string]string
-	st     map[string]string // current heap state
-	entry  map[string]string // heap state at function entry
-	loops  map[int]*Loop     // by header index
-	loopOf map[int][]*Loop
-	order  []*ssa.BasicBlock
-	anc    map[int]map[int]bool // DAG ancestors
-	fresh  int
-	notes  map[string]bool // abstractions encountered
-	kcount map[string]int
-	boxes  map[Sort]bool
-	lits   map[string]string
-	litSeq []string
-	ufs    map[string]bool
-	retSt  []retInfo
-	params map[string]Val
-	heapsUsed map[string]Sort
+	E           *Engine
+	M           *Model
+	F           *ssa.Function
+	Name        string
+	Spec        *FuncSpec
+	vals        map[ssa.Value]Val
+	decls       []string
+	declS       map[string]bool
+	facts       []Fact
+	obls        []*Obligation
+	seq         int
+	curBlk      int
+	reach       map[int]string
+	edges       map[[2]int]string
+	outSt       map[int]map[string]string
+	st          map[string]string // current heap state
+	entry       map[string]string // heap state at function entry
+	loops       map[int]*Loop     // by header index
+	loopOf      map[int][]*Loop
+	order       []*ssa.BasicBlock
+	anc         map[int]map[int]bool // DAG ancestors
+	fresh       int
+	notes       map[string]bool // abstractions encountered
+	kcount      map[string]int
+	boxes       map[Sort]bool
+	lits        map[string]string
+	litSeq      []string
+	ufs         map[string]bool
+	retSt       []retInfo
+	params      map[string]Val
+	heapsUsed   map[string]Sort
 	unsupported string
-	props  []string // property tags for K1 obligations
-	sitecount int
-	pfx    string   // name prefix for inlined bodies
-	inl    *inlineCtx
-	inlDepth int
-	inlStack []*ssa.Function
+	props       []string // property tags for K1 obligations
+	sitecount   int
+	heapReads   int
+	pfx         string // name prefix for inlined bodies
+	inl         *inlineCtx
+	inlDepth    int
+	inlStack    []*ssa.Function
 }
 
 type inlineCtx struct {
@@ -300,6 +304,7 @@ func (c *FnCtx) H(name string) string {
 }
 
 func (c *FnCtx) heapIn(st map[string]string, name string) string {
+	c.heapReads++
 	if t, ok := st[name]; ok {
 		return t
 	}
@@ -353,6 +358,9 @@ func (c *FnCtx) havocAll(why string) {
 	}
 	for _, n := range c.knownHeaps() {
 		if strings.HasPrefix(n, "G|") && c.E.isConstGlobalName(n) && !c.isInit() {
+			continue
+		}
+		if c.E.frozen[n] && !c.isInitLike() {
 			continue
 		}
 		c.havocHeap(n)
@@ -690,7 +698,7 @@ func (c *FnCtx) analyzeCFG() {
 			if s.Dominates(b) {
 				l := c.loops[s.Index]
 				if l == nil {
-					l = &Loop{Header: s, Blocks: map[int]bool{s.Index: true}, Mod: map[string]bool{}, ModFresh: map[string]bool{}}
+					l = &Loop{Header: s, Blocks: map[int]bool{s.Index: true}, Mod: map[string]bool{}, ModFresh: map[string]bool{}, ModRows: map[string][]ssa.Value{}, ModWhole: map[string]bool{}}
 					c.loops[s.Index] = l
 				}
 				l.BackPred = append(l.BackPred, b)
@@ -778,11 +786,13 @@ func (c *FnCtx) translate() {
 	// parameters
 	for _, p := range f.Params {
 		v := c.paramVal("p_"+mangle(p.Name()), p.Type())
+		v.GT = p.Type()
 		c.vals[p] = v
 		c.params[p.Name()] = v
 	}
 	for _, fv := range f.FreeVars {
 		v := c.paramVal("fv_"+mangle(fv.Name()), fv.Type())
+		v.GT = fv.Type()
 		c.vals[fv] = v
 		c.params["&"+fv.Name()] = v
 		if _, isPtr := types.Unalias(fv.Type()).Underlying().(*types.Pointer); isPtr {
@@ -826,6 +836,8 @@ func (c *FnCtx) typeFactsG(t string, gt types.Type) {
 				c.gfact(fmt.Sprintf("(and (>= %s %s) (<= %s %s))", t, lo, t, hi))
 			}
 		}
+	case *types.Interface:
+		c.gfact(fmt.Sprintf("(anywf %s %s)", t, wm))
 	case *types.Pointer, *types.Map, *types.Chan:
 		c.gfact(fmt.Sprintf("(and (>= %s 0) (<= %s %s))", t, t, wm))
 	case *types.Slice:
